@@ -254,7 +254,7 @@ struct Monitor {
 fn fresh(rt: &std::sync::Arc<tokio::runtime::Runtime>, state: &str) -> Option<(Player, Ctx, tempfile::TempDir)> {
     let dir = tempfile::TempDir::new().unwrap();
     let mut p = Player::new(rt.clone(), dir.path(), "regtest", true).ok()?;
-    p.inst.timeout = std::time::Duration::from_secs(12);
+    p.inst.timeout = std::time::Duration::from_secs(30);
     let ctx = build_state(&mut p, state);
     Some((p, ctx, dir))
 }
